@@ -50,7 +50,8 @@ def trkState (t : Ex2.Trk) : String :=
 def execOp (toksHex : String) (tb : Int) : String :=
   let txt := String.ofList ((unhex toksHex).map Char.ofNat)
   let toks := (parse ("(" ++ txt ++ ")")).items.map tokOfS
-  match Ex2.exec 400000 24 toks { tb := tb } with
+  -- (the first track is created before the text is read; `TimeBase` keeps its default length a quarter note of the new time base)
+  match Ex2.exec 400000 24 toks { tb := tb, tracks := [Ex2.Trk.new tb 0] } with
   | none => "unsupported fuel"
   | some s =>
     if s.bad then "unsupported" else
